@@ -1,5 +1,7 @@
 import StrettoModel.Proofs.Cache
 import StrettoModel.Props.C15
+import StrettoModel.Model.Lts
+import StrettoModel.Proofs.Frames
 /-!
 # C19 — AsyncCache behaves exactly like Cache
 
@@ -117,6 +119,285 @@ theorem flavour_difference_is_the_queue (c : Cache) (k : Nat) (hq : c.cfg.pqCap 
     (c.ringPush k).metrics.dropGets = c.metrics.dropGets :=
   C15.unbounded_queue_never_drops c k hq
 
+-- same operations, quiescence between them -------------------------------------------------------
+
+theorem withQ_met (c : Cache) (q : Option Nat) (f : Metrics → Metrics) : (withQ c q).met f = withQ (c.met f) q := by
+  unfold withQ Cache.met
+  simp only []
+  split <;> rfl
+
+theorem evictVictims_withQ (vs : List (Nat × Int)) (c : Cache) (q : Option Nat) :
+    (withQ c q).evictVictims vs = withQ (c.evictVictims vs) q := by
+  induction vs generalizing c with
+  | nil => rfl
+  | cons p rest ih =>
+    obtain ⟨vk, vc⟩ := p
+    simp only [Cache.evictVictims]
+    have hs : (withQ c q).store = c.store := rfl
+    rw [hs]
+    cases (c.store.tryRemove vk 0).2 with
+    | none => exact ih c
+    | some e =>
+      simp only
+      have ht : (withQ c q).tracked = c.tracked := rfl
+      rw [ht]
+      split
+      · rw [← ih]; congr 1
+        unfold withQ Cache.met; simp only []; split <;> rfl
+      · rw [← ih]; rfl
+
+theorem handleItem_withQ (c : Cache) (q : Option Nat) (su : Nat → Nat → Bool) (est : Nat → Int)
+    (refills : List (List (Nat × Int))) (it : Item) :
+    (withQ c q).handleItem su est refills it = withQ (c.handleItem su est refills it) q := by
+  cases it with
+  | wait w => rfl
+  | update k cost ext =>
+    simp only [Cache.handleItem]
+    unfold withQ Cache.met; simp only []; split <;> rfl
+  | delete k cf =>
+    simp only [Cache.handleItem]
+    have hs : (withQ c q).store = c.store := rfl
+    have hl : (withQ c q).lfu = c.lfu := rfl
+    rw [hs, hl]
+    cases (c.store.tryRemove k cf).2 <;> (simp only; split <;> first | rfl | (unfold withQ Cache.met; simp only []; split <;> rfl))
+  | new k cf cost v exp =>
+    simp only [Cache.handleItem]
+    have hl : (withQ c q).lfu = c.lfu := rfl
+    have hi : (withQ c q).internalCost cost = c.internalCost cost := rfl
+    rw [hl, hi]
+    split
+    · rw [← evictVictims_withQ]
+      congr 1
+      unfold withQ Cache.met
+      simp only []
+      split <;> (try split) <;> rfl
+    · unfold withQ Cache.met
+      simp only []
+      split <;> (try split) <;> rfl
+
+theorem admitPending_withQ (c : Cache) (q : Option Nat) : (withQ c q).admitPending = withQ c.admitPending q := by
+  cases c with
+  | mk cfg store lfu buf pendingSends clearQ ring pq metrics tracked closed policyClosed procExited released cbs =>
+    cases pendingSends with
+    | nil => rfl
+    | cons it rest =>
+      by_cases h : buf.length < cfg.bufCap <;> simp [Cache.admitPending, withQ, h]
+
+theorem sweepOne_withQ (c : Cache) (q : Option Nat) (now k cf : Nat) :
+    (withQ c q).sweepOne now k cf = (withQ (c.sweepOne now k cf).1 q, (c.sweepOne now k cf).2) := by
+  unfold Cache.sweepOne
+  have hs : (withQ c q).store = c.store := rfl
+  have hl : (withQ c q).lfu = c.lfu := rfl
+  rw [hs, hl]
+  cases c.store.expiration k with
+  | none => rfl
+  | some t =>
+    simp only
+    split
+    · cases (c.store.tryRemove k cf).2 <;> (simp only; unfold withQ Cache.met; simp only []; split <;> rfl)
+    · rfl
+
+theorem sweepKeys_withQ (keys : List (Nat × Nat)) (c : Cache) (q : Option Nat) (now : Nat) (acc : List CB) :
+    (withQ c q).sweepKeys now keys acc = (withQ (c.sweepKeys now keys acc).1 q, (c.sweepKeys now keys acc).2) := by
+  induction keys generalizing c acc with
+  | nil => rfl
+  | cons p rest ih =>
+    obtain ⟨k, cf⟩ := p
+    simp only [Cache.sweepKeys, sweepOne_withQ]
+    exact ih _ _
+
+theorem deliverEvictions_withQ (cbs : List CB) (c : Cache) (q : Option Nat) :
+    (withQ c q).deliverEvictions cbs = withQ (c.deliverEvictions cbs) q := by
+  induction cbs generalizing c with
+  | nil => rfl
+  | cons cb rest ih =>
+    simp only [Cache.deliverEvictions]
+    rw [← ih]
+    congr 1
+    cases cb with
+    | exit v => rfl
+    | reject k cf v cost => rfl
+    | evict k cf v cost =>
+      simp only
+      have ht : (withQ c q).tracked = c.tracked := rfl
+      rw [ht]
+      unfold withQ Cache.met
+      simp only []
+      split <;> (try split) <;> rfl
+
+/-- with nothing queued for the policy worker a bounded queue of capacity ≥ 1 takes the batch just as
+the unbounded one does -/
+theorem ringPush_withQ_quiescent (c : Cache) (n : Nat) (hn : 0 < n) (hasync : c.cfg.pqCap = none)
+    (hq : c.pq = []) (k : Nat) :
+    (withQ c (some n)).ringPush k = withQ (c.ringPush k) (some n) := by
+  unfold Cache.ringPush
+  have h1 : (withQ c (some n)).ring = c.ring := rfl
+  have h2 : (withQ c (some n)).cfg.ringCap = c.cfg.ringCap := rfl
+  have h3 : (withQ c (some n)).policyClosed = c.policyClosed := rfl
+  have h4 : (withQ c (some n)).cfg.pqCap = some n := rfl
+  have h5 : (withQ c (some n)).pq = [] := hq
+  simp only [h1, h2, h3, h4, h5, hasync, hq, List.length_nil, hn, decide_true, if_true]
+  split
+  · split
+    · rfl
+    · unfold withQ Cache.met; simp only []; split <;> rfl
+  · rfl
+
+/-- **at a quiescent point the two flavours take the same step**: from a state with no batch queued
+for the policy worker, every action of every actor leads `Cache` (bounded queue, any capacity ≥ 1) and
+`AsyncCache` (unbounded queue) to the same successor state (up to that one configuration field) and is
+enabled in the one iff it is in the other. -/
+theorem quiescent_step_agrees (su : Nat → Nat → Bool) (c : Cache) (n : Nat) (hn : 0 < n)
+    (hasync : c.cfg.pqCap = none) (hq : c.pq = []) (a : Act) :
+    (withQ c (some n)).step su a = (c.step su a).map (withQ · (some n)) := by
+  cases a with
+  | insert k cf v cost ttl now coster only =>
+    simp only [Cache.step, Option.map_some, Option.some.injEq]
+    exact (insert_flavour_independent c (some n) su k cf v cost ttl now coster only).2
+  | get k cf now =>
+    simp only [Cache.step, Option.map_some, Option.some.injEq]
+    unfold Cache.get
+    have hc : (withQ c (some n)).closed = c.closed := rfl
+    rw [hc]
+    split
+    · rfl
+    · simp only [ringPush_withQ_quiescent c n hn hasync hq k]
+      have hs : (withQ (c.ringPush k) (some n)).store = (c.ringPush k).store := rfl
+      rw [hs]
+      cases (c.ringPush k).store.get k cf now <;> (dsimp only; exact withQ_met _ _ _)
+  | getMut k cf now v =>
+    simp only [Cache.step, Option.map_some, Option.some.injEq]
+    unfold Cache.getMutWrite
+    have hc : (withQ c (some n)).closed = c.closed := rfl
+    rw [hc]
+    split
+    · rfl
+    · simp only [ringPush_withQ_quiescent c n hn hasync hq k]
+      have hs : (withQ (c.ringPush k) (some n)).store = (c.ringPush k).store := rfl
+      rw [hs]
+      cases ((c.ringPush k).store.getMutWrite k cf now v).2 with
+      | none => dsimp only; exact withQ_met _ _ _
+      | some old => dsimp only; unfold withQ Cache.met; simp only []; split <;> rfl
+  | remove k cf =>
+    simp only [Cache.step, Option.map_some, Option.some.injEq]
+    exact (remove_flavour_independent c (some n) k cf).2
+  | waitEnq w =>
+    simp only [Cache.step, Option.map_some, Option.some.injEq]
+    unfold Cache.waitEnq withQ; simp only []; split
+    · rfl
+    · split <;> rfl
+  | clearReq w =>
+    simp only [Cache.step, Option.map_some, Option.some.injEq]
+    unfold Cache.clearReq withQ; simp only []; split <;> rfl
+  | closeBegin w =>
+    simp only [Cache.step, Option.map_some, Option.some.injEq]
+    unfold Cache.closeBegin withQ; simp only []; split <;> rfl
+  | updateMaxCost mc => rfl
+  | procItem est refills =>
+    simp only [Cache.step, Cache.procItem]
+    have he : (withQ c (some n)).procExited = c.procExited := rfl
+    have hb : (withQ c (some n)).buf = c.buf := rfl
+    rw [he, hb]
+    split
+    · rfl
+    · cases c.buf with
+      | nil => rfl
+      | cons it rest =>
+        simp only [Option.map_some, Option.some.injEq]
+        change (withQ { c with buf := rest } (some n)).admitPending.handleItem su est refills it = _
+        rw [admitPending_withQ, handleItem_withQ]
+  | procClear =>
+    simp only [Cache.step]
+    exact (processor_flavour_independent c (some n) 0 []).1
+  | procTick now order =>
+    simp only [Cache.step, Cache.procTick]
+    have he : (withQ c (some n)).procExited = c.procExited := rfl
+    rw [he]
+    split
+    · rfl
+    · simp only [Option.map_some, Option.some.injEq]
+      change ((withQ { c with store := { c.store with em := (c.store.em.tryCleanup now).1 } } (some n)).sweepKeys now order []).1.deliverEvictions
+          ((withQ { c with store := { c.store with em := (c.store.em.tryCleanup now).1 } } (some n)).sweepKeys now order []).2.reverse = _
+      rw [sweepKeys_withQ]
+      simp only []
+      rw [deliverEvictions_withQ]
+  | procStop =>
+    simp only [Cache.step]
+    exact (processor_flavour_independent c (some n) 0 []).2
+  | policyWorker =>
+    simp only [Cache.step, Cache.policyWorkerStep]
+    have hp : (withQ c (some n)).pq = c.pq := rfl
+    rw [hp]
+    cases c.pq <;> rfl
+  | policyClose => rfl
+
+/-- the policy worker has consumed every queued batch -/
+def settle (c : Cache) : Cache := { c with pq := [] }
+
+theorem settle_is_worker_run (su : Nat → Nat → Bool) (c : Cache) :
+    Cache.run su c (List.replicate c.pq.length Act.policyWorker) = settle c := by
+  generalize hn : c.pq.length = m
+  induction m generalizing c with
+  | zero =>
+    have : c.pq = [] := List.length_eq_zero_iff.mp hn
+    simp only [List.replicate, Cache.run, settle]
+    cases c; simp_all
+  | succ m ih =>
+    cases hp : c.pq with
+    | nil => simp [hp] at hn
+    | cons b rest =>
+      simp only [List.replicate, Cache.run, Cache.step, Cache.policyWorkerStep, hp, Option.map_some, Option.getD_some]
+      rw [ih]
+      · simp [settle]
+      · simp [hp] at hn; simpa using hn
+
+/-- a history "with quiescence between the operations": after every action the policy worker catches up -/
+def seqRun (su : Nat → Nat → Bool) : Cache → List Act → Cache
+  | c, [] => c
+  | c, a :: rest => seqRun su (settle ((c.step su a).getD c)) rest
+
+/-- **C19 in the model**: for the same sequence of operations with quiescence between them — any
+client calls, any processor iterations, ticks, clears, close — the two flavours go through the same
+states: every return value, the store, the remaining TTLs, the callback log and every metrics counter
+are equal after every operation (they are all read off the state; the per-call answers are the
+`…_flavour_independent` theorems above). In particular a bounded queue never drops a batch on such a
+history. -/
+theorem flavours_agree_with_quiescence (su : Nat → Nat → Bool) (n : Nat) (hn : 0 < n) (acts : List Act) :
+    ∀ (c : Cache), c.cfg.pqCap = none → c.pq = [] →
+      seqRun su (withQ c (some n)) acts = withQ (seqRun su c acts) (some n) := by
+  induction acts with
+  | nil => intro c _ _; rfl
+  | cons a rest ih =>
+    intro c hasync hq
+    simp only [seqRun]
+    rw [quiescent_step_agrees su c n hn hasync hq a]
+    have hcfg : ∀ c' , c.step su a = some c' → c'.cfg.pqCap = none := by
+      intro c' hs
+      have := step_cfg su c c' a hs
+      rw [this]; exact hasync
+    cases hs : c.step su a with
+    | none =>
+      simp only [Option.map_none, Option.getD_none]
+      have : settle (withQ c (some n)) = withQ (settle c) (some n) := rfl
+      rw [this]
+      exact ih (settle c) hasync rfl
+    | some c' =>
+      simp only [Option.map_some, Option.getD_some]
+      have : settle (withQ c' (some n)) = withQ (settle c') (some n) := rfl
+      rw [this]
+      exact ih (settle c') (hcfg c' hs) rfl
+
+
+-- non-vacuity: a freshly built AsyncCache meets the premises, and on a history with lookups (ring of 2,
+-- so batches are flushed) the bounded flavour ends with the same counters
+def exCfgA : Cfg := { itemSize := 56, ignoreInternal := false, bufCap := 4, ringCap := 2, pqCap := none, metricsOn := true }
+def exHist : List Act :=
+  [.insert 3 0 77 10 0 5 0 false, .procItem (fun _ => 0) [], .get 3 0 6, .get 4 0 6, .get 3 0 7, .get 3 0 8]
+example : (Cache.init exCfgA 100 5).cfg.pqCap = none ∧ (Cache.init exCfgA 100 5).pq = [] := ⟨rfl, rfl⟩
+example : ((seqRun (fun _ _ => true) (withQ (Cache.init exCfgA 100 5) (some 1)) exHist).metrics.keepGets,
+           (seqRun (fun _ _ => true) (withQ (Cache.init exCfgA 100 5) (some 1)) exHist).metrics.dropGets,
+           (seqRun (fun _ _ => true) (withQ (Cache.init exCfgA 100 5) (some 1)) exHist).metrics.hit) = (4, 0, 3) := by decide
+
 end Stretto.C19
 
 #print axioms Stretto.C19.get_result_flavour_independent
@@ -126,3 +407,6 @@ end Stretto.C19
 #print axioms Stretto.C19.protocol_flavour_independent
 #print axioms Stretto.C19.processor_flavour_independent
 #print axioms Stretto.C19.flavour_difference_is_the_queue
+#print axioms Stretto.C19.quiescent_step_agrees
+#print axioms Stretto.C19.settle_is_worker_run
+#print axioms Stretto.C19.flavours_agree_with_quiescence
